@@ -34,7 +34,7 @@ RULE = ('cases: seeded descriptions with 0-4 systems (arbitrary priorities, freq
         'description signature.')
 ASSUMPTIONS = ['fixtures record what they are handed; the model-level hooks are not handed the model (documented) and are checked through the '
                'most recently created model', 'descriptions are well-formed (unique system ids)']
-FLOORS = {'quick': {'nested_decodes_that_failed_and_were_caught_by_the_hook': 283, 'retries_of_the_same_description_after_a_failed_decode': 750, 'decodes_failing_half_way': 750, 'same_dict_object_decoded_again': 207, 'decodes': 2000, 'events_compared': 15000, 'json_decodes': 800, 'dict_decodes': 800, 'repeat_decodes': 300,
+FLOORS = {'quick': {'cases_in_mode_warnings': 156, 'nested_decodes_that_failed_and_were_caught_by_the_hook': 283, 'retries_of_the_same_description_after_a_failed_decode': 750, 'decodes_failing_half_way': 750, 'same_dict_object_decoded_again': 207, 'decodes': 2000, 'events_compared': 15000, 'json_decodes': 800, 'dict_decodes': 800, 'repeat_decodes': 300,
                     'groups_of_size_zero': 200, 'descriptions_without_systems': 100, 'descriptions_without_agents': 100,
                     'hooks_run': 5000, 'agents_created': 3000, 'complete_models': 300, 'spatial_model_decodes': 300, 'big_agent_groups': 2, 'big_descriptions': 2, 'two_module_descriptions': 200, 'nested_decodes_during_decode': 200, 'late_bound_system_classes': 200,
                     'environment_replaced_by_hook': 100, 'reach:Decode.Decoder.decode': 2000, 'reach:Decode.JsonDecoder.open_file': 800},
